@@ -586,7 +586,7 @@ def make_cases(tier, rng, R):
             cases.append({"scenario": "template", "kind": kind, "family": row[1], "rev": row[2], "sub": row[3], "layout": li,
                           "text": int(thorough and n == 0)})
         if kind == "tz":
-            n = 12 if thorough else 2
+            n = 24 if thorough else 2
             for q in range(n):
                 row = rows[q % len(rows)]
                 customs = {}
@@ -599,7 +599,7 @@ def make_cases(tier, rng, R):
             continue
         lay, _ = R["model_layouts"][li]
         slow = kind in ("xmcd", "fcb")      # their get_config already goes through the YAML text, their loaders validate
-        nvals = (16 if thorough else (2 if slow else 3))
+        nvals = ((12 if slow else 40) if thorough else (2 if slow else 3))
         for q in range(nvals):
             row = rows[(q * 7) % len(rows)]
             density = [1.0, 0.5, 0.15][q % 3]
@@ -628,7 +628,7 @@ def make_cases(tier, rng, R):
         # the area's parser on arbitrary binaries (the fuse map has no binary form)
         if kind == "fuses":
             continue
-        nrand = (4 if thorough else 1)
+        nrand = (10 if thorough else 1)
         for q in range(nrand):
             row = rows[(q * 5 + 1) % len(rows)]
             size = max(doc_size(d, lay) or 0, layout_end(lay))
